@@ -73,6 +73,11 @@ func WithGlobalTx(ctx context.Context, gc *GtxConfig, business CallbackWithCtx) 
 			}
 		}
 
+		if deferErr != nil && re == nil {
+			// the business callback panicked: report it instead of returning nil
+			re = fmt.Errorf("business callback panic: %v", deferErr)
+		}
+
 		if re != nil || err != nil {
 			re = fmt.Errorf("first phase error: %v, second phase error: %v", re, err)
 		}
